@@ -1,8 +1,49 @@
 """C11 - exp, exp_m1, ln, ln_1p, powi, powf are accurate to less than one unit in the last place."""
 import math
+import os
+import sys
 
 import core
 from core import hx
+
+# The guard-digit / working-precision formulas of float/src/exp.rs and float/src/log.rs and the `type Reverse`
+# table of float/src/round.rs are regenerated into coq/gen/ElemParams.v when this plug-in is imported, i.e.
+# before the proof phase of every run (tools/check.py has no hook between plug-in load and the Coq build).
+# The as-is models of Float/ElemAsis.v call the regenerated definitions, C11_params_* prove what the
+# theorems need of them.  Unparseable source is not an alarm: the last good copy stays (marked STALE), the
+# status is reported in the evidence, the correspondence run alone ties the model.
+sys.path.insert(0, os.path.join(core.ROOT, "tools"))
+try:
+    import translate_c11_r3
+    ELEM_PARAMS_STATUS = translate_c11_r3.generate(core.REPO, os.path.join(core.COQ, "gen"))
+except Exception as _ex:  # the generator itself broke: same fallback as an unparseable source
+    ELEM_PARAMS_STATUS = "unparsed generator-failed: %s" % str(_ex)[:200]
+
+# a run against a scratch checkout (VERIF_REPO) must not leave its formulas in the tree for other builds
+if os.path.realpath(core.REPO) != os.path.realpath("/repo"):
+    import atexit
+
+    def _restore_params():
+        try:
+            translate_c11_r3.generate("/repo", os.path.join(core.COQ, "gen"))
+        except Exception:
+            pass
+
+    atexit.register(_restore_params)
+
+
+def extra_phase(tier, seed, exes, oracle):
+    word = ELEM_PARAMS_STATUS.split(" ", 1)[0]
+    return {
+        "evaluations": 0,
+        "hist": {"translator_c11:ElemParams:" + word: 1},
+        "nontrivial": [],
+        "samples": [{"fragment": "coq/gen/ElemParams.v (tools/translate_c11_r3.py from float/src/{exp,log,round}.rs)",
+                     "status": ELEM_PARAMS_STATUS,
+                     "tied_by": "C11_params_* and every theorem over Float/ElemAsis.v" if word == "ok"
+                     else "correspondence run only (source not parsed; last good copy marked STALE)"}],
+        "failures": [],
+    }
 
 ID = "C11"
 READY = True
@@ -195,7 +236,41 @@ def gen_ln1p(rng, tier, b, p):
     return "%s %x %s %x %s %s" % (op, b, rng.choice(MODES), p, hx(s), hx(e))
 
 
+def gen_powi_big(rng, tier, b, p):
+    """integer exponents of 40..200 bits applied to arguments next to 1: x = 1 +- r * B^-j with j chosen so
+    that |n ln x| stays between about 2^-12 and 2^40 (the guard digits of powi grow with the BIT length of the
+    exponent; an under-count shows only here)"""
+    op = rng.choice(["powi", "powi", "powi", "fpowi"])
+    nb = rng.choice([40, 48, 63, 64, 65, 90, 100, 127, 128, 129, 190, 200, rng.range(40, 200)])
+    k = rng.below(4)
+    if k == 0:
+        n = 2 ** nb
+    elif k == 1:
+        n = 2 ** nb + rng.choice([1, -1])
+    else:
+        n = rng.range(2 ** (nb - 1), 2 ** nb - 1)
+    # |n ln x| ~ 2^t
+    t = rng.choice([-12, -3, 0, 1, 5, 12, 20, 30, 38, rng.range(-12, 38)])
+    lb = math.log2(b)
+    dense = rng.chance(1, 3)
+    if dense:
+        # 1.00...0ddd..d with dr dense digits after the zeros
+        dr = rng.choice([1, 2, max(1, p - 1), p, p + 1, 2 * p])
+    else:
+        dr = 1
+    r = gen_sig(rng, b, dr)
+    # r * B^-j * n ~ 2^t  =>  j ~ (log2 n + log2 r - t) / log2 B
+    j = max(dr, int(round((math.log2(n) + math.log2(r) - t) / lb)))
+    sg = rng.choice([1, -1])
+    s, e = b ** j + sg * r, -j
+    if rng.chance(1, 3):
+        n = -n
+    return "%s %x %s %x %s %s %s" % (op, b, rng.choice(MODES), p, hx(s), hx(e), hx(n))
+
+
 def gen_powi(rng, tier, b, p):
+    if rng.chance(1, 5):
+        return gen_powi_big(rng, tier, b, min(p, 100))
     op = rng.choice(["powi", "powi", "powi", "fpowi"])
     k = rng.below(10)
     if k <= 2:
